@@ -561,9 +561,9 @@ func (rl *Shell) shellTransposeWords() {
 	rl.viSelectAShellWord()
 	transposeWith, wbpos, wepos, _ := rl.selection.Pop()
 
-	// We might be on the first word of the line,
-	// in which case we don't do anything.
-	if wepos > tbpos {
+	// We might be on the first word of the line, or have found
+	// no word at all, in which case we don't do anything.
+	if wepos > tbpos || wbpos < 0 || tbpos < 0 {
 		rl.cursor.Set(startPos)
 		return
 	}
